@@ -1233,6 +1233,20 @@ func (r *RIBHolder) GetNextHopGroup(id uint64) (*aft.Afts_NextHopGroup, bool) {
 	return n, true
 }
 
+// validateDeleteKey checks that the key of the entry within the candidate RIB rr,
+// which describes an entry to be deleted, is valid according to the schema - such
+// that a delete for a key that could never be installed (e.g., a malformed prefix,
+// or an out-of-range MPLS label) is reported as an error rather than acknowledged.
+func validateDeleteKey(rr *aft.RIB) error {
+	if err := rr.Afts.Validate(&ytypes.LeafrefOptions{
+		IgnoreMissingData: true,
+		Log:               false,
+	}); err != nil {
+		return fmt.Errorf("invalid entry provided, %v", err)
+	}
+	return nil
+}
+
 // candidateRIB takes the input set of Afts and returns them as a aft.RIB pointer
 // that can be merged into an existing RIB.
 func candidateRIB(a *aftpb.Afts) (_ *aft.RIB, rerr error) {
@@ -1401,6 +1415,9 @@ func (r *RIBHolder) DeleteIPv4(e *aftpb.Afts_Ipv4EntryKey) (bool, *aft.Afts_Ipv4
 
 	rr := &aft.RIB{}
 	rr.GetOrCreateAfts().GetOrCreateIpv4Entry(e.GetPrefix())
+	if err := validateDeleteKey(rr); err != nil {
+		return false, nil, err
+	}
 	if r.checkFn != nil {
 		ok, err := r.checkFn(constants.Delete, rr)
 		switch {
@@ -1548,6 +1565,9 @@ func (r *RIBHolder) DeleteIPv6(e *aftpb.Afts_Ipv6EntryKey) (bool, *aft.Afts_Ipv6
 
 	rr := &aft.RIB{}
 	rr.GetOrCreateAfts().GetOrCreateIpv6Entry(e.GetPrefix())
+	if err := validateDeleteKey(rr); err != nil {
+		return false, nil, err
+	}
 	if r.checkFn != nil {
 		ok, err := r.checkFn(constants.Delete, rr)
 		switch {
@@ -1730,6 +1750,9 @@ func (r *RIBHolder) DeleteMPLS(e *aftpb.Afts_LabelEntryKey) (bool, *aft.Afts_Lab
 
 	rr := &aft.RIB{}
 	rr.GetOrCreateAfts().GetOrCreateLabelEntry(aft.UnionUint32(lbl))
+	if err := validateDeleteKey(rr); err != nil {
+		return false, nil, err
+	}
 
 	if r.checkFn != nil {
 		ok, err := r.checkFn(constants.Delete, rr)
